@@ -1,4 +1,148 @@
+(** C20 - property theorems only.  Each is closed by [exact] of a lemma proved in
+    proofs/RegistryProofs*.v; nothing else lives here.
+
+    Vocabulary (coq/model/Registry.v): a run is a list of (scheduling, snapshot);
+    [run q pan steps] = (per-name cells, lifecycle log) of the model with quirks [q]
+    under the panic oracle [pan]; [calls_of w n log] = the callbacks consumer [w]
+    (0 = Supervisor, 1 = RawConfigTrafficController + TrafficController) made for
+    name [n], tagged with snapshot indices; [spec_log] = the unique word of the
+    per-name lifecycle automaton ([spec_calls]: absent -> Init; same spec -> nothing;
+    same kind, other spec -> Inherit with the live generation as predecessor; other
+    kind -> Close then Init; gone -> Close); [filt w] = what consumer [w] is meant to
+    see of a snapshot entry (its categories); [good_steps n steps] = in every
+    snapshot every range loop visits the key [n] exactly once (iteration ORDER,
+    watcher order and consumer order are arbitrary: they are part of [steps]). *)
 From EG.lib Require Import Base.
 From EG.model Require Import Registry.
-From EG.proofs Require Import RegistryProofs.
+From EG.proofs Require Import RegistryProofs RegistryProofsB RegistryProofsC RegistryProofsD RegistryProofsE.
 Open Scope N_scope.
+
+(** for every snapshot sequence, every panic oracle and every scheduling, the calls a consumer
+    makes for a name are exactly the word of the lifecycle automaton: Init exactly once when the
+    name appears, Inherit exactly once per spec change with the previous live generation as
+    predecessor, Close exactly once when it disappears, nothing when unchanged *)
+Theorem C20_exactly_once : forall pan steps n w,
+  w = 0 \/ w = 1 -> good_steps n steps ->
+  calls_of w n (snd (run ideal pan steps)) = fst (spec_log 0 n None (snaps_for w n steps)).
+Proof. exact exactly_once. Qed.
+Print Assumptions C20_exactly_once.
+
+(** after every snapshot: registry = snapshot; each watcher's entities and each consumer's live
+    objects = snapshot filtered by its categories *)
+Theorem C20_live_equals_snapshot : forall pan steps sc cfg n,
+  good_steps n (steps ++ [(sc, cfg)]) ->
+  let c := fst (run ideal pan (steps ++ [(sc, cfg)])) n in
+  option_map e_spec (c_reg c) = cfg n /\
+  option_map e_spec (c_w0 c) = filt 0 (cfg n) /\
+  option_map e_spec (c_w1 c) = filt 1 (cfg n) /\
+  forall w, w = 0 \/ w = 1 -> option_map e_spec (live w c) = filt w (cfg n).
+Proof. exact live_equals_snapshot. Qed.
+Print Assumptions C20_live_equals_snapshot.
+
+(** the live generation is the one the automaton predicts (not merely one with the right spec) *)
+Theorem C20_live_generation : forall pan steps n w,
+  w = 0 \/ w = 1 -> good_steps n steps ->
+  live w (fst (run ideal pan steps) n) = snd (spec_log 0 n None (snaps_for w n steps)).
+Proof. exact live_is_spec_state. Qed.
+Print Assumptions C20_live_generation.
+
+(** (any quirks) the lifecycle log and the state of a name depend on the panic oracle only through
+    its values at that name: whatever the callbacks of the other objects do, this one is reconciled
+    in exactly the same way *)
+Theorem C20_panic_isolated : forall q pan1 pan2 steps n,
+  good_steps n steps ->
+  (forall t op, pan1 t op n = pan2 t op n) ->
+  log_of n (snd (run q pan1 steps)) = log_of n (snd (run q pan2 steps)) /\
+  fst (run q pan1 steps) n = fst (run q pan2 steps) n.
+Proof. exact panic_isolated. Qed.
+Print Assumptions C20_panic_isolated.
+
+(** a name whose kind changes (within one consumer): Close of the old live generation, then Init
+    of the new one *)
+Theorem C20_kind_change_is_close_then_init : forall pan steps sc cfg n w old s,
+  w = 0 \/ w = 1 -> good_steps n (steps ++ [(sc, cfg)]) ->
+  live w (fst (run ideal pan steps) n) = Some old ->
+  filt w (cfg n) = Some s ->
+  same_kind (e_spec old) s = false ->
+  let t := N.of_nat (List.length steps) in
+  calls_of w n (snd (run ideal pan (steps ++ [(sc, cfg)]))) =
+    calls_of w n (snd (run ideal pan steps)) ++ [(t, Close n old); (t, Init n {| e_spec := s; e_born := t |})] /\
+  live w (fst (run ideal pan (steps ++ [(sc, cfg)])) n) = Some {| e_spec := s; e_born := t |}.
+Proof. exact kind_change_is_close_then_init. Qed.
+Print Assumptions C20_kind_change_is_close_then_init.
+
+(** ... and when the new kind belongs to the other consumer: the old consumer closes, the new one inits *)
+Theorem C20_kind_change_across_consumers : forall pan steps sc cfg n w w' old s,
+  (w = 0 /\ w' = 1) \/ (w = 1 /\ w' = 0) -> good_steps n (steps ++ [(sc, cfg)]) ->
+  live w (fst (run ideal pan steps) n) = Some old ->
+  filt w (cfg n) = None -> filt w' (cfg n) = Some s ->
+  let t := N.of_nat (List.length steps) in
+  calls_of w n (snd (run ideal pan (steps ++ [(sc, cfg)]))) =
+    calls_of w n (snd (run ideal pan steps)) ++ [(t, Close n old)] /\
+  live w (fst (run ideal pan (steps ++ [(sc, cfg)])) n) = None /\
+  calls_of w' n (snd (run ideal pan (steps ++ [(sc, cfg)]))) =
+    calls_of w' n (snd (run ideal pan steps)) ++ [(t, Init n {| e_spec := s; e_born := t |})] /\
+  live w' (fst (run ideal pan (steps ++ [(sc, cfg)])) n) = Some {| e_spec := s; e_born := t |}.
+Proof. exact kind_change_across_consumers. Qed.
+Print Assumptions C20_kind_change_across_consumers.
+
+(** the pinned code (quirk q_kind_change_as_update) violates the kind-change clause: closed witnesses *)
+Theorem C20_refuted_kind_change :
+  good_steps 0 wit_biz /\
+  calls_of 0 0 (snd (run pinned_q never wit_biz)) =
+    [(0, Init 0 (mk_ent ctlA 0)); (1, Inherit 0 (mk_ent ctlB 1) (mk_ent ctlA 0))] /\
+  map l_pan (log_of 0 (snd (run pinned_q never wit_biz))) = [false; true] /\
+  fst (spec_log 0 0 None (snaps_for 0 0 wit_biz)) =
+    [(0, Init 0 (mk_ent ctlA 0)); (1, Close 0 (mk_ent ctlA 0)); (1, Init 0 (mk_ent ctlB 1))] /\
+  calls_of 0 0 (snd (run pinned_q never wit_biz)) <> fst (spec_log 0 0 None (snaps_for 0 0 wit_biz)) /\
+  good_steps 0 wit_gate /\
+  calls_of 1 0 (snd (run pinned_q never wit_gate)) = [(0, Init 0 (mk_ent gate 0))] /\
+  live 1 (fst (run pinned_q never wit_gate) 0) = Some (mk_ent gate 0) /\
+  fst (spec_log 0 0 None (snaps_for 1 0 wit_gate)) =
+    [(0, Init 0 (mk_ent gate 0)); (1, Close 0 (mk_ent gate 0)); (1, Init 0 (mk_ent pipe 1)); (2, Close 0 (mk_ent pipe 1))] /\
+  calls_of 0 0 (snd (run ideal never wit_biz)) = fst (spec_log 0 0 None (snaps_for 0 0 wit_biz)) /\
+  calls_of 1 0 (snd (run ideal never wit_gate)) = fst (spec_log 0 0 None (snaps_for 1 0 wit_gate)).
+Proof. exact refuted_kind_change. Qed.
+Print Assumptions C20_refuted_kind_change.
+
+(** (any quirks) map iteration order, watcher order and consumer order inside the snapshots do not
+    change the per-name cells nor any consumer's per-name calls *)
+Theorem C20_order_independent : forall q pan steps steps' n,
+  good_steps n steps -> good_steps n steps' ->
+  Forall2 (fun a b => snd a n = snd b n) steps steps' ->
+  fst (run q pan steps) n = fst (run q pan steps') n /\
+  forall w, calls_of w n (snd (run q pan steps)) = calls_of w n (snd (run q pan steps')).
+Proof. exact order_independent. Qed.
+Print Assumptions C20_order_independent.
+
+(** (any quirks) a name whose snapshot entry did not change is left untouched *)
+Theorem C20_untouched_when_unchanged : forall q pan steps sc0 cfg0 sc cfg n,
+  good_steps n (steps ++ [(sc0, cfg0)] ++ [(sc, cfg)]) ->
+  cfg n = cfg0 n ->
+  let before := run q pan (steps ++ [(sc0, cfg0)]) in
+  let after := run q pan (steps ++ [(sc0, cfg0)] ++ [(sc, cfg)]) in
+  log_of n (snd after) = log_of n (snd before) /\
+  forall w, live w (fst after n) = live w (fst before n).
+Proof. exact untouched_when_unchanged. Qed.
+Print Assumptions C20_untouched_when_unchanged.
+
+(** (any quirks) the model decomposes per name: cell and log of a name after any run are those
+    of running the same loop bodies on that name alone *)
+Theorem C20_model_is_per_name : forall q pan n steps,
+  good_steps n steps ->
+  fst (run q pan steps) n = fst (cell_exec q pan 0 n (map (proj n) steps) (cell0, [])) /\
+  log_of n (snd (run q pan steps)) = snd (cell_exec q pan 0 n (map (proj n) steps) (cell0, [])).
+Proof. exact model_is_per_name. Qed.
+Print Assumptions C20_model_is_per_name.
+
+(** non-vacuity: a concrete two-name, five-snapshot run with a firing panic oracle satisfies the
+    hypotheses and produces a non-trivial log *)
+Example C20_nonvacuous :
+  good_steps 0 wit_run /\ good_steps 1 wit_run /\
+  calls_of 0 0 (snd (run ideal wit_oracle wit_run)) =
+    [(0, Init 0 (mk_ent ctlA 0)); (1, Inherit 0 (mk_ent (sp 0 cat_biz 2) 1) (mk_ent ctlA 0));
+     (2, Close 0 (mk_ent (sp 0 cat_biz 2) 1)); (2, Init 0 (mk_ent ctlB 2)); (4, Close 0 (mk_ent ctlB 2))] /\
+  calls_of 1 1 (snd (run ideal wit_oracle wit_run)) =
+    [(1, Init 1 (mk_ent gate 1)); (3, Close 1 (mk_ent gate 1)); (3, Init 1 (mk_ent pipe 3))] /\
+  existsb l_pan (snd (run ideal wit_oracle wit_run)) = true.
+Proof. exact nonvacuous. Qed.
